@@ -114,7 +114,13 @@ func genCluster(t *rapid.T) ClCase {
 		var s ClStep
 		s.S = rapid.IntRange(0, 5).Draw(t, "store")
 		s.St = ClStats{Avail: rapid.IntRange(1, 99).Draw(t, "avail"), Used: rapid.IntRange(0, 90).Draw(t, "used")}
-		switch rapid.IntRange(0, 9).Draw(t, "step") {
+		switch rapid.IntRange(0, 10).Draw(t, "step") {
+		case 10:
+			// the admin "drop region from cache" request racing a heartbeat that replaces that region
+			s.K = "droprace"
+			op := ClOp{K: vkit.PickU(t, []string{"split", "split", "merge", "leader", "size"}, "dropKind"), R: rapid.IntRange(0, 31).Draw(t, "r"),
+				A: rapid.IntRange(0, 255).Draw(t, "a"), B: rapid.IntRange(0, 255).Draw(t, "b")}
+			s.Op = &op
 		case 0, 1, 2, 3:
 			s.K = "region"
 			op := genClOp(t)
@@ -696,6 +702,62 @@ func runCluster(c ClCase) (vkit.Info, error) {
 			if err != nil {
 				return info, fmt.Errorf("step %d: %v", i, err)
 			}
+		case "droprace":
+			if st.Op == nil {
+				continue
+			}
+			hbs := w.apply(*st.Op, 0)
+			if len(hbs) == 0 {
+				continue
+			}
+			target := hbs[len(hbs)-1].id
+			desc = fmt.Sprintf("DropCacheRegion(%d) racing region heartbeat(s) %s", target, st.Op.K)
+			// The cluster's read lock is held while the heartbeat queues for the write lock; the drop request arrives
+			// behind it (a queued writer keeps later readers out), so on release the heartbeat runs first and the drop
+			// second: afterwards the region is simply gone from the cache and every index agrees.
+			f.rc.RLock()
+			hbDone := make(chan error, 1)
+			go func() { hbDone <- f.deliver(hbs) }()
+			pending := false
+			for deadline := time.Now().Add(5 * time.Second); time.Now().Before(deadline); {
+				if !f.rc.TryRLock() {
+					pending = true
+					break
+				}
+				f.rc.RUnlock()
+				select {
+				case err := <-hbDone: // the heartbeat did not need the write lock (nothing changed)
+					hbDone <- err
+					deadline = time.Now()
+				default:
+					time.Sleep(20 * time.Microsecond)
+				}
+			}
+			dropDone := make(chan struct{})
+			go func() { f.rc.DropCacheRegion(target); close(dropDone) }()
+			time.Sleep(2 * time.Millisecond)
+			f.rc.RUnlock()
+			err := <-hbDone
+			<-dropDone
+			if err != nil {
+				return info, fmt.Errorf("step %d: %v", i, err)
+			}
+			if pending {
+				classes["droprace-heartbeat-queued-behind-read-lock"] = true
+			} else {
+				classes["droprace-no-write-needed"] = true
+			}
+			if err := f.checkStores(stores, last); err != nil {
+				return info, fmt.Errorf("step %d (%s): %v", i, desc, err)
+			}
+			// the store reports the dropped region again (its current state): the cache is whole again
+			for _, r := range w.live {
+				if r.id == target {
+					if err := f.deliver([]*clReg{r.clone()}); err != nil {
+						return info, fmt.Errorf("step %d: re-reporting the dropped region: %v", i, err)
+					}
+				}
+			}
 		case "store":
 			s := f.rc.GetStore(sid)
 			if s != nil && s.NeedPersist() {
@@ -846,4 +908,25 @@ func clOpKinds(ops []ClOp) string {
 		ks = append(ks, o.K)
 	}
 	return "[" + strings.Join(ks, ",") + "]"
+}
+
+// The admin request "drop region from cache" removes the region from every index but used to leave the
+// statistics cached on its stores untouched until some later heartbeat touched those stores.
+func TestFinding_drop_cache_region_leaves_store_statistics(t *testing.T) {
+	const key = "C07/drop-cache-region-leaves-store-statistics"
+	f, err := newClFixture(3)
+	if err != nil {
+		t.Fatal(err)
+	}
+	defer f.cancel()
+	a := &clReg{id: 10, start: "", end: "", ver: 1, conf: 1, term: 6, sizeMB: 40,
+		peers: []clPeer{{11, 1, false}, {12, 2, false}, {13, 3, false}}, leader: 11}
+	if err := f.deliver([]*clReg{a}); err != nil {
+		vkit.Finding(t, key, false, "heartbeat refused: "+err.Error())
+		return
+	}
+	f.rc.DropCacheRegion(10)
+	s := f.rc.GetStore(1)
+	vkit.Finding(t, key, len(f.rc.GetRegions()) == 0 && (s.GetRegionCount() != 0 || s.GetLeaderCount() != 0 || s.GetRegionSize() != 0),
+		fmt.Sprintf("after DropCacheRegion(10) no region is cached, GetStore(1) reports %d regions, %d leaders, region size %d", s.GetRegionCount(), s.GetLeaderCount(), s.GetRegionSize()))
 }
